@@ -86,6 +86,25 @@ def _work(chunk):
                     if real.startswith("ok "):
                         lines.append(f"SPEC {kind} {cont} {real[3:]}")
                         meta.append((succ, stage, cont, kind, real, "spec"))
+    # a kept view object, iterated once, then the graph gets a new entry block in front of the old
+    # head (which stays in the graph): the same view object must enumerate the edited graph
+    for tag, succ in chunk[::3]:
+        try:
+            g = export.mk_scfg(succ)
+            v = g.concealed_region_view
+            first = list(v)
+            if not first:
+                continue
+            g.add_block(bb.BasicBlock(name="pre_entry", _jump_targets=(first[0],)))
+            a, b = list(v), list(g.concealed_region_view)
+            it1 = [n for n, _ in g]
+            if a != b or (b and b[0] != "pre_entry"):
+                stale.append((succ, "input", g.region.name, "view", "ok " + cj(a),
+                              "view object iterated before an entry block was added enumerates " + cj(a) + " instead of " + cj(b)))
+            if it1 and it1[0] != "pre_entry":
+                stale.append((succ, "input", g.region.name, "iter", "ok " + cj(it1), "iteration after adding an entry block does not start with it"))
+        except Exception as e:  # noqa: BLE001
+            stale.append((succ, "input", "?", "view", "abort " + type(e).__name__, "kept-view history raised"))
     rep = drv.run(lines)
     mism, fails = [], []
     stats = Counter()
